@@ -340,3 +340,68 @@ Proof.
   assert (Hcd : 0 < cdiv (nthZ bs i) c) by (unfold cdiv; nia).
   destruct (cdiv (nthZ bs i) c <? 0) eqn:E5; [lia|]. destruct (cdiv (nthZ bs i) c =? 0) eqn:E6; [lia|]. exact Ht.
 Qed.
+
+(* ------------------------------------------------------------------ masked_select with a mask of the batch shape *)
+Lemma is_prefix_app a b : is_prefix a (a ++ b) = true.
+Proof. induction a as [|x a IH]; [reflexivity|]. cbn. rewrite Z.eqb_refl. exact IH. Qed.
+
+Lemma mask_index_lifts : forall t bs tl cnt,
+  wf t -> top_shape t = bs ++ tl -> 0 <= cnt ->
+  exists t', mask_index t bs cnt = Done t' /\ rel bs [cnt] t t'.
+Proof.
+  induction t as [sh|b nm ents IH] using tree_ind'; intros bs tl cnt Hw Ht Hc; cbn in Ht; subst; cbn [mask_index].
+  - rewrite is_prefix_app, skipn_app_exact. eexists. split; [reflexivity|]. apply (rel_leaf bs [cnt] tl).
+  - rewrite is_prefix_app. cbn [negb]. inversion Hw as [|? ? ? Hnn Hnm HF]; subst.
+    assert (Hents : exists ents',
+      (fix go (l : list (string * tree)) : out (list (string * tree)) :=
+         match l with
+         | [] => Done []
+         | (key, c) :: r => let* c' := mask_index c bs cnt in let* r' := go r in Done ((key, c') :: r')
+         end) ents = Done ents' /\
+      Forall2 (fun e e' => fst e = fst e' /\ rel bs [cnt] (snd e) (snd e')) ents ents').
+    { clear Hw. induction ents as [|[k c] l IHl]; [exists []; split; [reflexivity|constructor]|].
+      pose proof (Forall_inv IH) as IHc. pose proof (Forall_inv_tail IH) as IHr.
+      pose proof (Forall_inv HF) as [Hwc [tl2 Hcs]]. pose proof (Forall_inv_tail HF) as HFr. cbn [snd] in *.
+      destruct (IHc bs (tl ++ tl2) cnt Hwc ltac:(rewrite Hcs, app_assoc; reflexivity) Hc) as [c' [Hc' Hr']].
+      destruct (IHl IHr HFr) as [l' [Hl' HF2]]. rewrite Hc'. cbn [bindo]. rewrite Hl'. cbn [bindo].
+      exists ((k, c') :: l'). split; [reflexivity|]. constructor; [|exact HF2]. split; [reflexivity|exact Hr']. }
+    destruct Hents as [ents' [He HF2]]. rewrite He. cbn [bindo]. rewrite skipn_app_exact.
+    eexists. split; [reflexivity|]. apply (rel_node bs [cnt] tl). exact HF2.
+Qed.
+
+Lemma squeeze_mask_same bs : squeeze_mask (List.length bs) bs (List.length bs) = bs.
+Proof. destruct bs as [|x bs]; [reflexivity|]. cbn [List.length squeeze_mask]. rewrite Nat.ltb_irrefl. reflexivity. Qed.
+
+(* masked_select by a mask of the batch shape with cnt True entries: torch's shape is [cnt]; every entry bs ++ feat
+   becomes [cnt] ++ feat, nested nodes alike *)
+Theorem masked_select_acts_on_batch_dims : forall t cnt,
+  wf t -> is_node t -> 0 <= cnt ->
+  t_masked_select (top_shape t) (top_shape t) cnt = Ok [cnt] /\
+  exists t', td_masked_select t (top_shape t) cnt = Done t' /\ top_shape t' = [cnt] /\ rel (top_shape t) [cnt] t t'.
+Proof.
+  intros t cnt Hw Hn Hc. destruct t as [sh|bs nm ents]; [contradiction|]. cbn [top_shape]. split.
+  { unfold t_masked_select, broadcastable. assert (H : forall l, broadcastable_rev l l = true)
+      by (induction l as [|x l IH]; [reflexivity|]; cbn; rewrite Z.eqb_refl; exact IH). rewrite H. reflexivity. }
+  cbn [td_masked_select]. rewrite squeeze_mask_same. inversion Hw as [|? ? ? Hnn Hnm HF]; subst.
+  assert (Hents : exists ents',
+    (fix go (l : list (string * tree)) : out (list (string * tree)) :=
+       match l with
+       | [] => Done []
+       | (key, c) :: r => let* c' := mask_index c bs cnt in let* r' := go r in Done ((key, c') :: r')
+       end) ents = Done ents' /\
+    Forall2 (fun e e' => fst e = fst e' /\ rel bs [cnt] (snd e) (snd e')) ents ents').
+  { clear Hw Hn. induction ents as [|[k c] l IHl]; [exists []; split; [reflexivity|constructor]|].
+    pose proof (Forall_inv HF) as [Hwc [tl2 Hcs]]. pose proof (Forall_inv_tail HF) as HFr. cbn [snd] in *.
+    destruct (mask_index_lifts c bs tl2 cnt Hwc Hcs Hc) as [c' [Hc' Hr']].
+    destruct (IHl HFr) as [l' [Hl' HF2]]. rewrite Hc'. cbn [bindo]. rewrite Hl'. cbn [bindo].
+    exists ((k, c') :: l'). split; [reflexivity|]. constructor; [|exact HF2]. split; [reflexivity|exact Hr']. }
+  destruct Hents as [ents' [He HF2]]. rewrite He. cbn [bindo].
+  assert (Hfrom : py_from bs (len bs) = []).
+  { unfold len. rewrite py_from_in by lia. apply skipn_all. }
+  rewrite Hfrom.
+  assert (Hchk : forallb (fun e => is_prefix [cnt] (top_shape (snd e))) ents' = true).
+  { apply forallb_forall. intros e He'. clear - HF2 He'. induction HF2 as [|x y l l' [_ Hr] _ IHF]; [destruct He'|].
+    destruct He' as [<-|Hin]; [|exact (IHF Hin)]. destruct (rel_top _ _ _ _ Hr) as [tl [_ E2]]. rewrite E2. cbn. rewrite Z.eqb_refl. reflexivity. }
+  rewrite Hchk. eexists. split; [reflexivity|]. split; [reflexivity|].
+  pose proof (rel_node bs [cnt] [] nm None ents ents' HF2) as HR. rewrite !app_nil_r in HR. exact HR.
+Qed.
